@@ -42,8 +42,6 @@ Proof.
   intros NH. unfold label_names, defined_labels. rewrite !in_flat_map. intros (c & Hc & Hl). exists c. split; auto.
   destruct c; try (now destruct Hl). destruct Hl as [<-|[]]. rewrite NH. now left.
 Qed.
-Lemma NoDup_app_tail {X} (a b : list X) : NoDup (a ++ b) -> NoDup b.
-Proof. induction a as [|x a IH]; cbn; auto. intros H. inversion H; auto. Qed.
 Lemma build_labels_nh : forall cs i a im, NoDup (defined_labels cs) -> labels_at_nh (build cs i a im) i cs.
 Proof.
   induction cs as [|c r IH]; intros i a im Hnd n l Hn NH; [destruct n; discriminate|].
@@ -184,7 +182,7 @@ Proof.
     assert (NH : is_hash_label (show_ident (dname d) +++ "_") = false).
     { unfold plain_names in PL. rewrite forallb_forall in PL. rewrite <- PD in Hd. specialize (PL d Hd).
       destruct (is_hash_label (show_ident (dname d) +++ "_")) eqn:E; auto.
-      apply is_hash_app_ in E. rewrite E in PL. discriminate. }
+      apply is_hash_app_ in E. rewrite hash_name_is, E in PL. discriminate. }
     destruct (layout_at im cs (preamble ++ su ++ pre) (LAB (show_ident (dname d) +++ "_") :: cd) (post ++ cleanup) CA LA)
       as [CAd LAd].
     { unfold cs. rewrite EQ. rewrite <- !app_assoc. cbn [app]. rewrite <- !app_assoc. reflexivity. }
